@@ -84,6 +84,18 @@ def _run(batch_rank: int, upper: bool, explicit: bool):
             """the invariant as functions of the quantified indices"""
             A, jit = state["A"], state["jitter"]
             Aprime, info = env["Aprime"], env["info"]
+            # SNAPSHOTS of the values at the moment the facts are built (the loop head when they are assumed, the state after the
+            # body when they are proved): Aprime is updated in place by the body, a lazily evaluated Aprime.at(...) in an
+            # assumed fact would silently talk about the post-state
+            _ape, _ife = Aprime.elem_fn(), info.elem_fn()
+
+            class _Snap:
+                def __init__(self, e):
+                    self.e = e
+
+                def at(self, *idx):
+                    return self.e(tuple(idx))
+            Aprime, info = _Snap(_ape), _Snap(_ife)
             level, added = self.witness(env, k)
             kk = sym.as_z3_int(k)
             inb_b = lambda b: z3.And(*[z3.And(bi >= 0, bi < sym.as_z3_int(sz)) for bi, sz in zip(b, A.shape[:batch_rank])]) if batch_rank else z3.BoolVal(True)  # noqa
